@@ -6,7 +6,8 @@ import os
 import vp
 
 MUTATING = {"open_w", "mkdir", "unlink", "rmdir", "rename", "chmod", "symlink", "link", "truncate", "write"}
-DIR_MODES = [0o755, 0o555, 0o666, 0o000, 0o311, 0o700]
+DIR_MODES = [0o755, 0o555, 0o666, 0o000, 0o311, 0o700,
+             0o575, 0o655, 0o355, 0o477, 0o077, 0o070]      # owner has fewer rights than group / others
 FILE_MODES = [0o644, 0o600, 0o444, 0o000, 0o755]
 OPS = ["uncached", "cached-delete", "trait-recreate", "trait-migrate-recreate"]
 LINK_KINDS = ["in-file", "in-dir", "sib-file", "sib-dir", "canary-file", "canary-dir", "abs-canary-file", "abs-canary-dir", "dangling", "self", "mutual", "up", "layers-root",
@@ -53,7 +54,8 @@ def make_case(r, root, op):
         f.write('[types]\ncache = true\n\n[metadata]\nv = "sib"\n')
     with open(os.path.join(layers, "sib.sbom.cdx.json"), "w") as f:
         f.write("{}")
-    name = r.choice(["victim", "victim", "sib.x", "sib.2", "v.i.c"])     # dotted names whose stem is the sibling layer's name
+    # dotted names whose stem is the sibling layer's name; names with characters that are special elsewhere (quote, tab, trailing space)
+    name = r.choice(["victim", "victim", "sib.x", "sib.2", "v.i.c", "vic'tim", "vic\ttim", "victim ", 'v"q'])
     # siblings whose names extend the victim's name (ruby / ruby-gems): their toml, SBOM files and content are not the victim's
     for suffix in r.sample(["-gems", "_cache", "2", ".more"], r.randint(0, 2)):
         sib2 = os.path.join(layers, name + suffix)
@@ -116,7 +118,7 @@ def make_case(r, root, op):
     hostile = set()
     for _, p, mode in chmods:
         os.chmod(p, mode)
-        if p.startswith(ldir) and mode in (0o000, 0o311, 0o555, 0o666, 0o444):
+        if p.startswith(ldir) and mode not in (0o755, 0o700, 0o644, 0o600):
             hostile.add(mode)
     layers_mode = r.choice([0o755, 0o755, 0o755, 0o555, 0o500])       # a <layers> dir without write bit: deleting must fail, not "repair" it
     os.chmod(layers, layers_mode)
@@ -211,6 +213,12 @@ def run_case(base, idx, seed, op, shim, sh):
         else:
             sh.count("err_results")
             sh.add("error_kinds", rep["detail"][:90] + " | top=" + info["top"])
+            if info["layers_mode"] & 0o200 and info["top"] != "link-dangling":
+                # everything under <layers> belongs to the caller and <layers> is writable: "whatever its contents" the layer can be
+                # deleted (the owner can always re-grant himself the rights); an error here leaves the old layer in place
+                sh.violation("delete-failed:%s" % info["top"].split("-")[0], "%s failed although the caller owns the whole tree and <layers> is writable: %s; modes in the layer: %r"
+                             % (what, rep["detail"][:200], info["hostile_modes"]), case)
+                return
         if nmut == 0:
             sh.inconclusive.append("case %d: the effect tracer saw no mutating call (shim not loaded?)" % idx)
             return
